@@ -110,11 +110,17 @@ func genNDPair(c *Ctx) {
 		elt := types[c.R.Intn(len(types))]
 		p := newProg(c.R, "g", elt)
 		arrayOps := elt != "int" && elt != "uint"
-		p.addRoot(false, p.randShape(3, 4))
-		if c.R.Chance(0.5) {
-			p.addRoot(false, p.randShape(3, 4))
-		}
 		nops := c.R.Range(3, 30)
+		if c.R.Chance(0.15) {
+			p.addLongAxisRoots(false, false)
+			nops = c.R.Range(3, 14)
+			c.Stats.Count("long_axis_programs")
+		} else {
+			p.addRoot(false, p.randShape(3, 4))
+			if c.R.Chance(0.5) {
+				p.addRoot(false, p.randShape(3, 4))
+			}
+		}
 		for k := 0; k < nops; k++ {
 			p.addRandomOp(arrayOps)
 		}
